@@ -518,6 +518,9 @@ static bool process_line(AsmState *state, const char *line, AsmResult *result) {
             }
             state->patch_count = new_count;
 
+            /* Labels are per function and no function is open: the table can be reused */
+            state->label_count = 0;
+
             return true;
         }
 
